@@ -42,6 +42,8 @@ def populate(rng, layers, name, sfx, confdirs, bad=None, owners=False, links=Fal
         elif kind == "dir": cmds.append(fsdir(p))
         for cd in (confdirs or [suffix + b".d"]):
             dd = d + b"/" + name + cd
+            if kind not in ("absent", "dir") and (dd + b"/").startswith(p + b"/"):
+                continue          # "<name>/conf.d" below a main file "<name>" that is no directory: cannot exist (scandir: ENOTDIR)
             if rng.random() < 0.75:
                 cmds.append(fsdir(dd))
                 for nm in rng.sample(NAMES, rng.randrange(0, 5)):
